@@ -112,6 +112,39 @@ let pred_rm maxd ops qs impl =
   if List.length ans <> List.length qs then false
   else List.for_all2 (fun q a -> c03_pred maxd h q (parse_ans q a)) qs ans
 
+(* ---------- engine: role manager with matching functions (C03, extended) ---------- *)
+let mfid_of = function "-" -> None | "km" -> Some FKeyMatch | "km2" -> Some FKeyMatch2 | "km3" -> Some FKeyMatch3
+                       | "fe" -> Some FFirstEq | s -> failwith ("mfid " ^ s)
+let mop_of s = match String.split_on_char ',' s with
+  | ["C"] -> IClear
+  | ["A"; a; b; d] -> IAdd (dec a, dec b, opt_of d)
+  | ["D"; a; b; d] -> IDel (dec a, dec b, opt_of d)
+  | ["F"; rf; df] -> ISetFns (mfid_of rf, mfid_of df)
+  | _ -> failwith ("mop " ^ s)
+let mops_of s = if s = "-" then [] else List.map mop_of (String.split_on_char '|' s)
+let uniq_sorted l = List.sort_uniq compare l
+let names_str_raw l =
+  let l = List.map enc (List.sort_uniq compare l) in
+  if l = [] then "-" else String.concat "," l
+let show_mans = function ABool b -> b01 b | ANames l -> names_str_raw l
+let run_rmm maxd ops qs =
+  let maxd = nat_of_int (int_of_string maxd) in
+  let (m, flags) = mrun_i (mops_of ops) in
+  let res = String.concat "" (List.map b01 flags) in
+  let ans = List.map (fun q -> show_mans (manswer maxd m (lq_of q))) (String.split_on_char '|' qs) in
+  Printf.sprintf "ops=%s q=%s" (if res = "" then "-" else res) (String.concat "|" ans)
+(* pattern histories are judged by the declarative pattern-reachability spec (c03m_pred);
+   plain histories by c03_pred; everything else only by model = implementation *)
+let pred_rmm maxd ops qs impl =
+  let maxd = nat_of_int (int_of_string maxd) in
+  let h = mops_of ops in
+  let qs = List.map lq_of (String.split_on_char '|' qs) in
+  let ans = String.split_on_char '|' (List.assoc "q" (kv impl)) in
+  if List.length ans <> List.length qs then "0" else
+    let verdicts = List.map2 (fun q a -> c03m_pred maxd h q (parse_ans q a)) qs ans in
+    if List.exists (fun v -> v = Some false) verdicts then "0"
+    else if List.exists (fun v -> v = Some true) verdicts then "1" else "-"
+
 (* ---------- engine: the whole enforcer (Engine.v) ---------- *)
 let rec pos_of_int n = if n = 1 then XH else if n land 1 = 0 then XO (pos_of_int (n / 2)) else XI (pos_of_int (n / 2))
 let z_of_int n = if n = 0 then Z0 else if n > 0 then Zpos (pos_of_int n) else Zneg (pos_of_int (- n))
@@ -280,6 +313,7 @@ let ufun_of = function "eq" -> UEq | "neq" -> UNeq | "prefix" -> UPrefix | "true
                        | _ -> failwith "ufun"
 
 type stepk = SOp of op | SQuery of query | SWlog | SReload | SFresh | SQuery2 of query | SFileGone of bool
+           | SCtx4 of (char list * char list * char list * char list) * value list
 
 let rec step_of (st : string) : stepk =
   if String.length st > 2 && String.sub st 0 2 = "?2" then
@@ -319,6 +353,7 @@ and step_of1 (st : string) : stepk =
   | ["EB"; x] -> SOp (OEnableAutoBuild (b x)) | ["EN"; x] -> SOp (OEnableAutoNotify (b x))
   | ["?e"; v] -> SQuery (QEnforce (parse_vals v))
   | ["?ec"; k; v] -> SQuery (QEnforceCtx (dec k, parse_vals v))
+  | ["?c4"; rk; pk; ek; mk; v] -> SCtx4 ((dec rk, dec pk, dec ek, dec mk), parse_vals v)
   | ["?gp"; sec; pt] -> SQuery (QGetPolicy (explode sec, dec pt))
   | ["?ga"; sec] -> SQuery (QGetAll (explode sec))
   | ["?hp"; sec; pt; r] -> SQuery (QHasPolicy (explode sec, dec pt, dec_rule r))
@@ -395,6 +430,7 @@ let run_eng_line (line : string) (spec : string) (ad : string) (flags : string) 
                 (match r, o with Panic, OSave -> () | Panic, _ -> poisoned := true | _ -> ());
                 outcome_str r
               | SQuery q -> answer_str (ask ptab !s q)
+              | SCtx4 ((rk, pk, ek, mk), rv) -> outcome_str (enforce_with_ctx4 ptab !s rk pk ek mk rv)
               | SFresh ->
                 (match fresh_of !s with
                  | (fs, Ok _) -> fresh := Some fs; "1"
@@ -583,6 +619,7 @@ let pred_c01 line spec ad flags steps impl =
         match k with
         | SQuery (QEnforce rv) -> o = outcome_str (perm_ref_plain ptab s rv)
         | SQuery (QEnforceCtx (sfx, rv)) -> o = outcome_str (perm_ref_ctx ptab s sfx rv)
+        | SCtx4 ((rk, pk, ek, mk), rv) -> o = outcome_str (perm_ref_ctx4 ptab s rk pk ek mk rv)
         | _ -> true) tr outs
   | _ -> false
 
@@ -879,7 +916,9 @@ let pred_c19 ad steps impl =
               | [s; o; a] -> Some (List.exists (fun r -> match r with
                   | [ps; po; pa] -> pa = a && reach "g" None s ps && reach "g2" None o po | _ -> false) prules)
               | [s; d; o; a] -> Some (List.exists (fun r -> match r with
-                  | [ps; pd; po; pa] -> pa = a && pd = d && reach "g" (Some d) s ps && reach "g2" (Some d) o po | _ -> false) prules)
+                  | [ps; pd; po; pa] -> pa = a && pd = d && reach "g" (Some d) s ps && reach "g2" (Some d) o po
+                  | [ps; po; pa] -> pa = a && reach "g" None s ps && reach "g2" (Some d) o po   (* g binary, g2 ternary *)
+                  | _ -> false) prules)
               | _ -> None in
             (match exp with
              | Some b -> if os.(!j) <> b01 b then res := "K:shared_role_manager"
@@ -1086,6 +1125,7 @@ let run_case (line : string) (toks : string list) : string =
     (match new_stream (dec e) (nat_of_int (int_of_string c)) with
      | Some _ -> "ok" | None -> "PANIC")
   | ["rm"; maxd; ops; qs] -> run_rm maxd ops qs
+  | ["rmm"; maxd; ops; qs] -> run_rmm maxd ops qs
   | "pm" :: fn :: k :: pat :: rest -> run_pm fn k pat rest
   | ["savecrash"; o; n; k] -> run_savecrash o n k
   | "stress" :: _ -> "ok"   (* serial oracle: every concurrent decision is a serial one, all threads finish *)
@@ -1108,6 +1148,7 @@ let pred_case (line : string) (toks : string list) (impl : string) : string =
       | Some _ -> "ok" | None -> "PANIC" in
     b01 (impl = exp)
   | ["rm"; maxd; ops; qs] -> (try b01 (pred_rm maxd ops qs impl) with _ -> "0")
+  | ["rmm"; maxd; ops; qs] -> (try pred_rmm maxd ops qs impl with _ -> "0")
   | ("csv" | "csvx" | "esc" | "rmc" | "csvf" | "ini" | "mdl" | "totext" | "mdl2" | "tt") :: _ -> pred_txt toks impl
   | ["twin"; _; _; _; _] ->
     (* C11: the cached enforcer's outputs equal the uncached twin's *)
@@ -1115,7 +1156,7 @@ let pred_case (line : string) (toks : string list) (impl : string) : string =
      | [a; b] -> b01 (a = b)
      | _ -> "0")
   | ["savecrash"; o; n; _] -> pred_savecrash o n impl
-  | "stress" :: _ -> b01 (impl = "ok")
+  | "stress" :: _ -> if impl = "SKIPPED-after-HANG" then "-" else b01 (impl = "ok")
   | "pm" :: fn :: k :: pat :: rest ->
     (* totality for every request-side key; documented meaning inside the grammar *)
     if impl = "PANIC" || impl = "HANG" || impl = "ABORT" then "0"
